@@ -156,6 +156,7 @@ func TestC20_limit_metrics(t *testing.T) {
 		Rule: "every limit type built with a recording registry: each OnSample emits exactly one rtt sample == rtt, one in-flight sample == in-flight and a drop-counter increment iff didDrop; limit gauge == EstimatedLimit(); non-trivial = >=1 drop and >=1 non-drop sample",
 		Gen: func(t *rapid.T) c20LCase {
 			c := c20LCase{Cfg: genLimitCfg(t, []string{"aimd", "vegas", "gradient", "gradient2", "settable", "fixed"}, false)}
+			genUnsetSafe(t, &c.Cfg)
 			c.Samples = genSamples(t, c.Cfg, 60)
 			return c
 		},
